@@ -197,6 +197,19 @@ def run(facts, res):
         res.instance("E3", "the cache guard is held at every call after its acquisition (no window between probe and use): %s" % held_all, rb.loc())
         if not held_all:
             res.violation("E3", "rebuild_array_order|cache-guard-released", "rebuild_array_order releases the cache guard during the reconstruction", rb.loc())
+        # who-may-write: the reconstruction function is the only writer of the array cache
+        writers = set()
+        for ob in facts.repo_bodies():
+            for bi, t in ob.calls():
+                c_ = t.callee
+                if c_ is not None and c_.name in ("put", "push", "get_or_insert", "get_or_insert_mut", "pop", "clear", "pop_lru", "get_mut", "peek_mut") and \
+                        "lru::LruCache" in c_.path and "melda::ArrayDescriptor" in " ".join(c_.args):
+                    writers.add(ob.path)
+        res.instance("E3", "writers of the array reconstruction cache: %s" % sorted(writers), rb.loc())
+        for wpath in sorted(writers - {rb.path}):
+            res.violation("E3", "%s|foreign-cache-writer" % wpath,
+                          "%s writes the array reconstruction cache; only %s may store (revision -> order reconstructed for exactly that revision), "
+                          "otherwise later diffs are computed against something that is not the recorded parent's order" % (wpath, rb.path), facts.body(wpath).loc())
         # keys are revisions
         kty = facts.struct_field_ty("melda::Melda", "array_descriptors_cache")
         ok = kty is not None and "LruCache<revision::Revision," in kty
